@@ -32,7 +32,7 @@ def others(res, prop):
     return [p for p in sorted(set(re.findall(r"\bC\d\d\b", txt))) if p != prop]
 
 def worker(i):
-    wt = "/tmp/seedall-%d" % i
+    wt = "/tmp/seedall-%d-%d" % (os.getpid(), i)
     sh("git -C /repo worktree remove --force %s" % wt)
     assert sh("git -C /repo worktree add --detach %s HEAD" % wt).returncode == 0
     try:
@@ -57,6 +57,11 @@ def worker(i):
                         out = {"verdict": "caught", "by": "%s/%s" % (p, tier), "first_report": line}; break
                     if r.returncode != 0 and inc is None:
                         inc = {"verdict": "inconclusive(rc%d)" % r.returncode, "by": "%s/%s" % (p, tier), "first_report": line}
+                if out is None and inc is None:
+                    # a miss is re-examined once (the machine may be busy with several of these at a time)
+                    r = sh("%s/check %s --tier quick --seed 2" % (V, prop), cwd=V, env=dict(os.environ, VERIF_REPO=wt, VERIF_JOBS=os.environ.get("VERIF_JOBS", "6")))
+                    if r.returncode == 1:
+                        out = {"verdict": "caught", "by": "%s/quick (second run, seed 2)" % prop, "first_report": [l.strip()[:300] for l in r.stdout.splitlines() if "evid.go" in l or "fails again" in l][:1]}
                 if out is None:
                     out = inc or {"verdict": "MISSED"}
                 out.update(head=head, wall_s=round(time.time() - t0))
@@ -64,8 +69,8 @@ def worker(i):
             json.dump(res, open(rp, "w"), indent=1)
             with lock:
                 summary[name] = out
-                print(name, out["verdict"], out.get("by", ""), "|", (out.get("first_report") or [""])[0][:140], flush=True)
-                json.dump(summary, open(os.path.join(V, "seeded", "recheck_summary.json"), "w"), indent=1, sort_keys=True)
+                print(name, out["verdict"], out.get("by", ""), "%ss" % out.get("wall_s", "?"), "|", (out.get("first_report") or [""])[0][:140], flush=True)
+                json.dump(summary, open(os.path.join(V, "seeded", "recheck_summary-%d.json" % os.getpid()), "w"), indent=1, sort_keys=True)
     finally:
         sh("git -C /repo worktree remove --force %s" % wt)
 
